@@ -257,6 +257,9 @@ def vary_vec(v, ty):
         return tuple(v)
     if ty == 'intlist':
         return [int(x) for x in v]
+    if ty == 'mixedlist':       # class R10: ints, floats and numpy scalars side by side
+        return [(int(x) if float(x).is_integer() and i % 2 == 0 else (np.float64(x) if i % 3 == 0 else float(x)))
+                for i, x in enumerate(v)]
     if ty == 'strided':
         big = np.zeros(2 * n + 1)
         big[1::2] = v
@@ -273,7 +276,7 @@ def vary_vec(v, ty):
 
 
 def vec_types(v):
-    out = ['arr', 'list', 'tuple', 'strided', 'reversed', 'readonly']
+    out = ['arr', 'list', 'tuple', 'strided', 'reversed', 'readonly', 'mixedlist']
     if len(set(v)) == 1:
         out.append('broadcast')
     if all(float(x).is_integer() and 0 < x < 120 for x in v):
@@ -333,6 +336,35 @@ def mat_types(mats):
     return out
 
 
+def vary_hetero(mats, seed):
+    """class R10: every user's matrix in another element type / layout / python type (nested list), each one exact"""
+    rs = np.random.RandomState(seed)
+    out = []
+    for m in mats:
+        opts = mat_types([m]) + ['nested']
+        ty = opts[rs.randint(0, len(opts))]
+        if ty == 'nested':
+            a = np.asarray(m)
+            out.append((a.real if np.all(a.imag == 0) else a).tolist())
+        else:
+            out.append(vary_mat(m, ty))
+    return out
+
+
+def vary_mats(mats, mty, seed=0):
+    if mty == 'hetero':
+        return vary_hetero(mats, seed)
+    return [vary_mat(m, mty) for m in mats]
+
+
+def mat_tag(mty):
+    if mty in (None, 'c'):
+        return None
+    if mty == 'hetero':
+        return 'R10:mat:hetero'
+    return 'R%s:mat:%s' % ('1' if mty in R1_MAT else '2', mty)
+
+
 def vary_container(mats, cty):
     if mats is None:
         return None
@@ -386,10 +418,26 @@ def gen_grid(seed, rows, cols, real=False, integer=False):
     return out
 
 
-def make_solver(kind, ch, best=False):
+def make_solver(kind, ch, best=False, ctor=None):
+    """`ctor`: how the documented constructor parameters are given (class R8: positionally, by keyword, left at
+    the default; class R9: the flag as numpy bool / 0-1 integer)"""
     _, alg, base, _ = _mods()
     if kind == 'closed':
+        if ctor == 'pos':
+            return alg.ClosedFormIASolver(ch, best)
+        if ctor == 'allkw':
+            return alg.ClosedFormIASolver(multiUserChannel=ch, use_best_init=best)
+        if ctor == 'default' and best is True:
+            return alg.ClosedFormIASolver(ch)
+        if ctor == 'npbool':
+            return alg.ClosedFormIASolver(ch, use_best_init=np.bool_(best))
+        if ctor == 'int':
+            return alg.ClosedFormIASolver(ch, use_best_init=int(best))
         return alg.ClosedFormIASolver(ch, use_best_init=best)
+    if ctor == 'allkw':
+        cls = {'altmin': alg.AlternatingMinIASolver, 'minleak': alg.MinLeakageIASolver,
+               'maxsinr': alg.MaxSinrIASolver, 'mmse': alg.MMSEIASolver}.get(kind, base.IASolverBaseClass)
+        return cls(multiUserChannel=ch)
     if kind == 'altmin':
         return alg.AlternatingMinIASolver(ch)
     if kind == 'minleak':
@@ -441,6 +489,8 @@ def parg_valid(p, K):
 def parg_tag(p):
     if p is None or len(p) < 3 or p[2] is None:
         return None
+    if p[2] == 'mixedlist':
+        return 'R10:P:mixedlist'
     return ('R2' if p[2] in ('0d', '0d-int', 'strided', 'reversed', 'broadcast', 'readonly', 'col', 'row', '3d') else 'R1') \
         + ':P:' + str(p[2])
 
@@ -453,6 +503,20 @@ def parg_vec(p, K):
     return [float(x) for x in p[1]]
 
 
+def vary_count(n, ty):
+    """a count / index given as another integer type (class R9)"""
+    if ty is None or ty == 'int':
+        return int(n)
+    if ty == '0d':
+        return np.array(int(n))
+    if ty == 'bool':
+        return bool(n)
+    return getattr(np, ty[3:])(n)
+
+
+COUNT_TYPES = ['np:' + t for t in INT_SCALARS] + ['np:intp', 'np:uint32', 'np:uint64', '0d']
+
+
 def ns_val(ns):
     return ns['v'] if isinstance(ns, dict) else ns
 
@@ -462,9 +526,10 @@ def ns_py(ns):
     v = ns_val(ns)
     ty = ns.get('ty') if isinstance(ns, dict) else None
     if isinstance(v, int):
-        if ty is None or ty == 'int':
-            return int(v)
-        return getattr(np, ty[3:])(v)            # numpy integer scalar
+        return vary_count(v, ty)                 # python int, numpy integer scalar, 0-d array
+    if ty == 'mixedlist':                        # class R10: elements of different integer types
+        kinds = [np.int8, int, np.int64, np.uint16, np.intp]
+        return [kinds[i % len(kinds)](x) for i, x in enumerate(v)]
     if ty is None or ty == 'arr':
         return np.array(v, dtype=int)
     if ty == 'list':
@@ -493,14 +558,19 @@ def ns_list(ns, K):
 def ns_tag(ns):
     if not isinstance(ns, dict) or ns.get('ty') in (None, 'int', 'arr'):
         return None
+    if ns['ty'] == 'mixedlist':
+        return 'R10:Ns:mixedlist'
+    if ns['ty'] in ('0d', 'np:intp', 'np:uint32', 'np:uint64'):
+        return 'R9:Ns:' + ns['ty']
     return ('R2' if ns['ty'] in ('strided', 'reversed') else 'R1') + ':Ns:' + ns['ty']
 
 
 def vary_ns(rng, v):
     """a typed / laid-out variant of a stream-count argument"""
     if isinstance(v, int):
-        return {'v': v, 'ty': rng.choice(['np:' + t for t in INT_SCALARS])}
-    return {'v': v, 'ty': rng.choice(['list', 'tuple', 'strided', 'reversed', 'arr:int16', 'arr:int32', 'arr:uint8', 'arr:int64'])}
+        return {'v': v, 'ty': rng.choice(COUNT_TYPES)}
+    return {'v': v, 'ty': rng.choice(['list', 'tuple', 'strided', 'reversed', 'arr:int16', 'arr:int32', 'arr:uint8',
+                                      'arr:int64', 'mixedlist', 'mixedlist'])}
 
 
 def gen_unit(seed, rows, cols):
@@ -523,6 +593,19 @@ def init_accepted(kind, value):
     return not (kind == 'altmin' and value == 'alt_min')
 
 
+def call_ns_p(fn, a, b, form):
+    """class R8: the same (Ns, P) call positionally, by keyword, with P left at its default, mixed"""
+    if form == 'kw':
+        return fn(Ns=a, P=b)
+    if form == 'mixed':
+        return fn(a, P=b)
+    if form == 'default' and b is None:
+        return fn(a)
+    if form == 'kwrev':
+        return fn(P=b, Ns=a)
+    return fn(a, b)
+
+
 def seed_solver(s, seed):
     """every random draw of a solve comes from these generators"""
     s._rs = np.random.RandomState(seed)
@@ -542,10 +625,12 @@ class Hist:
         self.Nt = case['Nt']
         self.ch = ch if ch is not None else case_channel(case)
         self.kind = case['solver']
-        self.s = make_solver(self.kind, self.ch, best=case.get('best', False))
+        self.s = make_solver(self.kind, self.ch, best=case.get('best', False), ctor=case.get('ctor'))
         if hasattr(self.s, 'max_iterations'):
-            self.s.max_iterations = case.get('iters', 3)
+            self.s.max_iterations = vary_count(case.get('iters', 3), case.get('iters_ty'))
         self.mode = 'random'     # the initialisation mode in force
+        self.parents = []        # (object, observables) left behind by a fork (class R13)
+        self.pair_fail = None    # disagreement of two entry points documented as equivalent (class R8)
         self.tokens = []
         self.outs = []
         self.tags = []           # R-class tags of the variant arguments of each op
@@ -587,7 +672,8 @@ class Hist:
                 self.mode = op[1]
                 return ('unit',)
             if name == 'rand':
-                _, ns, p, seed = op
+                _, ns, p, seed = op[:4]
+                form = op[4] if len(op) > 4 else None
                 nsl = ns_list(ns, K)
                 _, _, _, misc = _mods()
                 rs2 = np.random.RandomState(seed)
@@ -597,7 +683,8 @@ class Hist:
                 a, b = ns_py(ns), parg_py(p)
                 self.note(ns_tag(ns), parg_tag(p))
                 self.inputs(('Ns', a), ('P', b))
-                s.randomizeF(a, b)
+                self.note('R8:form:' + form if form else None)
+                call_ns_p(s.randomizeF, a, b, form)
                 return ('unit',)
             if name == 'setprec':
                 d = op[1]
@@ -608,14 +695,24 @@ class Hist:
                 mty, cty, pty = d.get('mty'), d.get('cty'), d.get('pty')
                 if mty in R1_MAT and mty not in mat_types((F or []) + (fF or [])):
                     mty = 'fortran'       # the values are not exact in that element type: only the layout varies
-                Fa = None if F is None else vary_container([vary_mat(m, mty) for m in F], cty)
-                fa = None if fF is None else vary_container([vary_mat(m, mty) for m in fF], cty)
+                Fa = None if F is None else vary_container(vary_mats(F, mty, d.get('hseed', 1)), cty)
+                fa = None if fF is None else vary_container(vary_mats(fF, mty, d.get('hseed', 1) + 1), cty)
                 Pa = None if P is None else vary_vec(P, pty)
-                self.note('R%s:mat:%s' % ('1' if mty in ('c64', 'real', 'f32', 'int', 'int16') else '2', mty) if mty not in (None, 'c') else None,
+                self.note(mat_tag(mty),
                           'R1:container:%s' % cty if cty in ('list', 'tuple') else None,
                           parg_tag(('v', P, pty)) if P is not None else None)
                 self.inputs(('F', Fa), ('full_F', fa), ('P', Pa))
-                s.set_precoders(F=Fa, full_F=fa, P=Pa)
+                form = d.get('form')
+                self.note('R8:form:' + form if form else None)
+                if form == 'pos':
+                    s.set_precoders(Fa, fa, Pa)
+                elif form == 'default':      # only what is given
+                    kw = {k: v for k, v in (('F', Fa), ('full_F', fa), ('P', Pa)) if v is not None}
+                    s.set_precoders(**kw)
+                elif form == 'mixed':
+                    s.set_precoders(Fa, P=Pa, full_F=fa)
+                else:
+                    s.set_precoders(F=Fa, full_F=fa, P=Pa)
                 return ('unit',)
             if name == 'setfilt':
                 d = op[1]
@@ -630,18 +727,36 @@ class Hist:
                 wh = [Hm(w) for w in W] if which in ('WH', 'both') else None
                 w = W if which in ('W', 'both') else None
                 self.tokens.append('setfilt;%s;%s' % (enc_arr(wh), enc_arr(w)))
-                wha = None if wh is None else vary_container([vary_mat(m, mty) for m in wh], cty)
-                wa = None if w is None else vary_container([vary_mat(m, mty) for m in w], cty)
-                self.note('R%s:mat:%s' % ('1' if mty in ('c64', 'real', 'f32', 'int', 'int16') else '2', mty) if mty not in (None, 'c') else None,
+                wha = None if wh is None else vary_container(vary_mats(wh, mty, d.get('hseed', 1)), cty)
+                wa = None if w is None else vary_container(vary_mats(w, mty, d.get('hseed', 1)), cty)
+                self.note(mat_tag(mty),
                           'R1:container:%s' % cty if cty in ('list', 'tuple') else None)
                 self.inputs(('W_H', wha), ('W', wa))
-                s.set_receive_filters(W_H=wha, W=wa)
+                form = d.get('form')
+                self.note('R8:form:' + form if form else None)
+                if form == 'pos':            # documented order: (W_H, W)
+                    s.set_receive_filters(wha, wa)
+                elif form == 'default':
+                    kw = {k: v for k, v in (('W_H', wha), ('W', wa)) if v is not None}
+                    s.set_receive_filters(**kw)
+                elif form == 'mixed':
+                    s.set_receive_filters(wha, W=wa)
+                else:
+                    s.set_receive_filters(W_H=wha, W=wa)
                 return ('unit',)
             if name == 'solve':
                 return self.do_solve(op)
             if name == 'clear':
                 self.tokens.append('clear')
                 s.clear()
+                return ('unit',)
+            if name == 'query':
+                self.tokens.append('query')
+                self.do_query(op)
+                return ('unit',)
+            if name == 'fork':
+                self.tokens.append('fork')
+                self.do_fork(op[1])
                 return ('unit',)
             self.tokens.append(name)
             if name == 'rF':
@@ -669,6 +784,86 @@ class Hist:
             raise
         except Exception as e:     # the Python exception is the output
             return ('err', err_kind(e))
+
+    def do_query(self, op):
+        """a call of the non-mutating API; whatever it returns or raises, its outcome is not compared with the model
+        (class R11: it must not change anything later).  Index arguments come in every integer type (class R9),
+        positionally or by keyword (class R8); pairs of entry points documented as equivalent are compared (R8)."""
+        kind, k, kty, form = op[1], op[2] if len(op) > 2 else 0, op[3] if len(op) > 3 else None, op[4] if len(op) > 4 else None
+        s = self.s
+        self.note('R11:query:' + kind, ('R9:index:' + kty) if kty not in (None, 'int') else None,
+                  ('R8:form:' + form) if form else None)
+        kk = vary_count(k, kty)
+        try:
+            if kind == 'calcQ':
+                r = s.calc_Q(k=kk) if form == 'kw' else s.calc_Q(kk)
+                ref = copy.deepcopy(s)
+                twin = ref._multiUserChannel.calc_Q(int(k), ref.full_F)
+                if not mat_close(r, twin, 1e-12):
+                    self.pair_fail = ('equivalent-calls-differ:calc_Q', 'solver.calc_Q(k) != channel.calc_Q(k, full_F)')
+                if kty not in (None, 'int'):
+                    if not mat_close(r, copy.deepcopy(s).calc_Q(int(k)), 1e-12):
+                        self.pair_fail = ('index-type-changes-result:calc_Q[%s]' % kty, 'calc_Q(%r) != calc_Q(%d)' % (kk, k))
+            elif kind == 'calcQrev':
+                r = s.calc_Q_rev(k=kk) if form == 'kw' else s.calc_Q_rev(kk)
+                if kty not in (None, 'int') and not mat_close(r, copy.deepcopy(s).calc_Q_rev(int(k)), 1e-12):
+                    self.pair_fail = ('index-type-changes-result:calc_Q_rev[%s]' % kty, 'calc_Q_rev(%r) != calc_Q_rev(%d)' % (kk, k))
+            elif kind == 'rip':
+                r = s.calc_remaining_interference_percentage(k=kk) if form == 'kw' else \
+                    s.calc_remaining_interference_percentage(kk)
+                q = copy.deepcopy(s)
+                r2 = q.calc_remaining_interference_percentage(int(k), q.calc_Q(int(k)))    # Qk given explicitly
+                if not rel_close(float(np.real(r)), float(np.real(r2)), 1e-9):
+                    self.pair_fail = ('equivalent-calls-differ:remaining_interference', 'default Qk vs explicit Qk: %r vs %r' % (r, r2))
+            elif kind == 'sinr':
+                s.calc_SINR()
+            elif kind == 'sinrdB':
+                db = s.calc_SINR_in_dB()
+                lin = copy.deepcopy(s).calc_SINR()
+                for a, b in zip(db, lin):
+                    with np.errstate(all='ignore'):
+                        e = 10.0 * np.log10(np.asarray(b, dtype=float))
+                    fin = np.isfinite(e)
+                    if np.shape(a) != np.shape(e) or not np.allclose(np.asarray(a)[fin], e[fin], rtol=1e-9, atol=1e-9):
+                        self.pair_fail = ('equivalent-calls-differ:SINR_in_dB', 'calc_SINR_in_dB != 10 log10(calc_SINR)')
+            elif kind == 'cap':
+                c = s.calc_sum_capacity()
+                lin = copy.deepcopy(s).calc_SINR()
+                with np.errstate(all='ignore'):
+                    e = float(sum(np.sum(np.log2(1.0 + np.asarray(b, dtype=float))) for b in lin))
+                if np.isfinite(e) and not rel_close(float(c), e, 1e-9):
+                    self.pair_fail = ('equivalent-calls-differ:sum_capacity', 'calc_sum_capacity=%r, from calc_SINR %r' % (c, e))
+            elif kind == 'sinr_old':
+                s.calc_SINR_old()
+            elif kind == 'cost':
+                s.get_cost()
+            elif kind == 'repr':
+                repr(s), str(s)
+            elif kind == 'dims':
+                s.K, s.Nr, s.Nt, s.noise_var
+                if hasattr(s, 'runned_iterations'):
+                    s.runned_iterations, s.initialize_with
+            elif kind == 'copy':
+                copy.copy(s), copy.deepcopy(s)
+        except core.Infra:
+            raise
+        except Exception:
+            pass        # e.g. nothing installed yet: the outcome of a query is not part of the comparison
+
+    def do_fork(self, how):
+        """class R13: the history goes on with an object derived from the current one; the parent is kept"""
+        import pickle
+        old = self.s
+        self.note('R13:fork:' + how)
+        if how == 'pickle':
+            new = pickle.loads(pickle.dumps(old))
+        elif how == 'copy':
+            new = copy.copy(old)
+        else:
+            new = copy.deepcopy(old)
+        self.parents.append((old, observables(old), how))
+        self.s = new
+        self.ch = new._multiUserChannel
 
     def precoder_args(self, d):
         ns = d['ns']
@@ -709,7 +904,8 @@ class Hist:
         return ('arr', [None if m is None else np.array(m) for m in v])
 
     def do_solve(self, op):
-        _, ns, p, seed, init = op
+        _, ns, p, seed, init = op[:5]
+        form = op[5] if len(op) > 5 else None
         s = self.s
         K = self.K
         closed = self.kind == 'closed'
@@ -721,8 +917,9 @@ class Hist:
         a, b = ns_py(ns), parg_py(p)
         self.note(ns_tag(ns), parg_tag(p))
         self.inputs(('Ns', a), ('P', b))
+        self.note('R8:form:' + form if form else None)
         try:
-            s.solve(a, b)
+            call_ns_p(s.solve, a, b, form)
             raised = None
         except Exception as e:
             raised = e
@@ -878,6 +1075,21 @@ def gen_ns(rng, K, Nr, Nt, cur):
 READS = ['rF', 'rFF', 'rW', 'rWH', 'rFWH', 'rFW', 'rNs', 'rP']
 
 
+def gen_many_users(rng, K, solver='base'):
+    """class R14: a history on a system with hundreds of users (2x2 links, one stream)"""
+    ops = [['rand', 1, ('v', [rng.choice(SQUARES) for _ in range(K)]), rng.below(2 ** 31)],
+           ['setfilt', {'which': 'W', 'seed': rng.below(2 ** 31), 'ns': [1] * K}], ['rFWH'], ['rFF'],
+           ['query', 'calcQ', K - 1, 'np:int64', None], ['query', 'calcQ', 256, 'int', 'kw'],
+           ['setP', ('s', 4.0)], ['rFF'], ['rFWH'],
+           ['setP', ('v', [1.0] * (K - 1))], ['rP'],
+           ['setprec', {'ns': [1] * K, 'F': rng.below(2 ** 31), 'fullF': None, 'P': None, 'amp_P': [4.0] * K, 'cty': 'list'}],
+           ['rFWH'], ['rFW'], ['rNs']]
+    if solver != 'base':
+        ops += [['solve', 1, ('s', 2.0), rng.below(2 ** 31), 'random'], ['rFF'], ['rFWH'], ['rNs']]
+    return {'K': K, 'Nr': [2] * K, 'Nt': [2] * K, 'chan_seed': rng.below(2 ** 31), 'solver': solver, 'iters': 1,
+            'best': False, 'noise': None, 'chan_scale': 1.0, 'ops': ops}
+
+
 def cf_ok(K, Nr, Nt, ns):
     """domain of the closed-form solution: 3 users, one antenna count N everywhere (the code inverts the cross
     channels), the same number of streams 1 <= Ns <= N/2 for every user (an Ns-dimensional interference-free
@@ -918,6 +1130,14 @@ def gen_history(rng, tier, solver=None, length=None):
                       else rng.choice([None, None, 0.0])),
             'chan_scale': rng.choice([1.0, 1.0, 1.0, 1e-6, 1e-3, 1e3, 1e6]),
             'ops': []}
+    if solver == 'closed' and rng.chance(0.6):
+        case['ctor'] = rng.choice(['pos', 'allkw', 'default', 'npbool', 'int'])
+        if case['ctor'] == 'default':
+            case['best'] = True
+    elif solver != 'closed' and rng.chance(0.2):
+        case['ctor'] = 'allkw'
+    if solver not in ('base', 'closed') and rng.chance(0.3):
+        case['iters_ty'] = rng.choice(COUNT_TYPES)
     if grid and rng.chance(0.3) and solver == 'base':
         case['chan_ty'] = rng.choice(['c64', 'fortran', 'transposed', 'strided'])
     elif rng.chance(0.15):
@@ -933,13 +1153,26 @@ def gen_history(rng, tier, solver=None, length=None):
 
     def ns_arg(ns):
         v = ns[0] if (len(set(ns)) == 1 and rng.chance(0.5)) else ns
-        return vary_ns(rng, v) if rng.chance(0.3) else v
+        return vary_ns(rng, v) if rng.chance(0.35) else v
+
+    def call_form(p):
+        r = rng.uniform()
+        if r < 0.55:
+            return None
+        return rng.choice(['kw', 'mixed', 'kwrev', 'default' if p is None else 'kw'])
+
+    QUERIES = ['calcQ', 'calcQ', 'calcQrev', 'rip', 'sinr', 'sinrdB', 'cap', 'sinr_old', 'cost', 'repr', 'dims', 'copy']
 
     def mat_variant(d, mats_real_int_ok):
         """choose element type / layout / container variants for the matrices of a setter call"""
         if rng.chance(0.5):
             d['cty'] = rng.choice(['list', 'tuple', 'objarr'])
-        if rng.chance(0.6):
+        if rng.chance(0.35):
+            d['form'] = rng.choice(['pos', 'default', 'mixed'])
+        if rng.chance(0.15):
+            d['mty'] = 'hetero'
+            d['hseed'] = rng.below(2 ** 20)
+        elif rng.chance(0.6):
             opts = ['fortran', 'transposed', 'strided', 'reversed', 'readonly']
             if d.get('grid'):
                 opts += ['c64', 'c64']
@@ -951,8 +1184,14 @@ def gen_history(rng, tier, solver=None, length=None):
 
     for _ in range(n):
         r = rng.uniform()
-        if r < 0.32:
+        if r < 0.24:
             ops.append([rng.choice(READS)])
+        elif r < 0.32:
+            # the non-mutating API, between the mutators (classes R11, R9, R8)
+            kty = rng.choice(['int', 'int'] + COUNT_TYPES)
+            ops.append(['query', rng.choice(QUERIES), rng.below(K), kty, rng.choice([None, None, 'kw'])])
+        elif r < 0.345:
+            ops.append(['fork', rng.choice(['deepcopy', 'pickle', 'copy'])])
         elif r < 0.48:
             p = gen_parg(rng, K, cur=curP)
             if parg_valid(p, K):
@@ -964,7 +1203,7 @@ def gen_history(rng, tier, solver=None, length=None):
             if parg_valid(p, K):
                 curP = parg_vec(p, K)
                 cur = ns
-            ops.append(['rand', ns_arg(ns), p, rng.below(2 ** 31)])
+            ops.append(['rand', ns_arg(ns), p, rng.below(2 ** 31), call_form(p)])
         elif r < 0.71:
             ns = gen_ns(rng, K, Nr, Nt, cur)
             mode_p = rng.choice(['F', 'F', 'F', 'fullF', 'both', 'neither'])
@@ -979,8 +1218,8 @@ def gen_history(rng, tier, solver=None, length=None):
             if grid:
                 d['grid'] = True
                 d['real'] = rng.chance(0.4)
-            if P is not None and rng.chance(0.35):
-                d['pty'] = rng.choice(vec_types(P))
+            if P is not None and rng.chance(0.4):
+                d['pty'] = rng.choice(vec_types(P) + ['mixedlist'])
             # integer element types only for a one-hot precoder that is passed alone (full_F would scale it)
             mat_variant(d, False)
             ops.append(['setprec', d])
@@ -1027,7 +1266,7 @@ def gen_history(rng, tier, solver=None, length=None):
             if parg_valid(p, K) and not (solver == 'closed' and K != 3):
                 curP = parg_vec(p, K)
                 cur = ns
-            ops.append(['solve', ns_arg(ns), p, rng.below(2 ** 31), init])
+            ops.append(['solve', ns_arg(ns), p, rng.below(2 ** 31), init, call_form(p)])
         else:
             curP = [1.0] * K
             ops.append(['clear'])
@@ -1241,6 +1480,18 @@ def observables(s):
     return d
 
 
+def configuration(s):
+    """what a non-mutating call must leave alone: the primaries and the settings (lazily derived attributes may
+    be populated by it)"""
+    d = {f: freeze(getattr(s, f)) for f in ('_F', '_P', '_Ns')}
+    w = s._W if s._W is not None else (None if s._W_H is None else [Hm(np.asarray(m)) for m in s._W_H])
+    d['W'] = freeze(w)
+    for f in ('_initialize_with', 'max_iterations', 'relative_factor', '_use_best_init', '_runned_iterations'):
+        if hasattr(s, f):
+            d[f] = getattr(s, f)
+    return d
+
+
 def first_difference(a, b):
     for f in a:
         if f not in b or not same_frozen(a[f], b[f]):
@@ -1308,12 +1559,14 @@ def o_history(case):
     K = h.K
     other = Other(h.ch, K, h.Nr, h.Nt, case['chan_seed'] % 1000 + 7)
     other_ref = Other(case_channel(case), K, h.Nr, h.Nt, case['chan_seed'] % 1000 + 7)
+    ch0 = h.ch
     chan0 = np.array(h.ch.big_H, copy=True)
     nops = len(case['ops'])
     stages = {nops // 3: 0, (2 * nops) // 3: 1}
     exact = True
     last_mut = 'init'
     skipped = None
+    passive = None
     watched_in = []       # (op index, op name, label, object, snapshot)
     watched_out = []      # (op index, getter, object, snapshot)
     for i, op in enumerate(case['ops']):
@@ -1325,6 +1578,7 @@ def o_history(case):
             except Exception as e:
                 return 'shared-channel:other-solver-raises', '%s: %s' % (type(e).__name__, str(e)[:100])
         before = observables(h.s) if name in MUTATORS else None
+        config0 = configuration(h.s) if name in ('query', 'fork') else None
         if name == 'solve' and op[4] is not None and '_initialize_with' in before:
             before['_initialize_with'] = op[4]      # the op first selects the (valid) initialisation mode
         out = h.do(op)
@@ -1359,11 +1613,26 @@ def o_history(case):
                 return ('rejected-call-changed-object:%s:%s' % (name, f),
                         'op %d: %s raised %s but %s is no longer what it was' % (i, name, out[1], f))
             skipped = name
+        elif name in ('query', 'fork'):
+            # ---- R11 / R13: the non-mutating API and the derivation of a copy change no configuration attribute;
+            # the twin never makes these calls, every later output must still agree with it
+            f = first_difference(config0, configuration(h.s))
+            if f is not None:
+                return ('non-mutating-call-changed-object:%s:%s' % (op[1], f),
+                        'op %d: %s(%s) changed %s' % (i, name, op[1], f))
+            if h.pair_fail is not None:
+                return h.pair_fail[0], 'op %d: %s' % (i, h.pair_fail[1])
+            passive = name + ':' + op[1]
         else:
-            out2 = twin.do(op)
+            # class R8: the twin uses the OTHER of two equivalent forms (W <-> W_H = W^H)
+            op2 = op
+            if name == 'setfilt' and op[1]['which'] in ('W', 'WH'):
+                op2 = ['setfilt', dict(op[1], which='WH' if op[1]['which'] == 'W' else 'W')]
+            out2 = twin.do(op2)
             twin.outs.append(out2)
             if not outs_equal(out, out2):
-                why = ('after-rejected:' + skipped) if skipped else ('shared-channel' if other.log else 'not-reproducible')
+                why = ('after-rejected:' + skipped) if skipped else (
+                    ('after-passive:' + passive) if passive else ('shared-channel' if other.log else 'not-reproducible'))
                 return ('differs-from-twin-object:%s:%s' % (why, name),
                         'op %d (%s): %s but the twin object gives %s' % (i, name, out_repr(out)[:150], out_repr(out2)[:150]))
         # ---- R3: arguments are left alone, internals do not share memory with them, returned arrays stay as they were
@@ -1412,16 +1681,24 @@ def o_history(case):
             r = ('getter-raises', '%s: %s' % (type(e).__name__, str(e)[:100]))
         if r is not None:
             return '%s-after:%s%s' % (r[0], last_mut, sfx), 'op %d (%s): %s' % (i, name, r[1])
+    # ---- R13: the objects the history was forked from are what they were at that moment
+    for (obj, snap, how) in h.parents:
+        f = first_difference(snap, observables(obj))
+        if f is not None:
+            return 'parent-changed-through-derived-object:%s:%s' % (how, f), \
+                'attribute %s of the object a %s was taken from changed afterwards' % (f, how)
     # ---- R7: the other user of the channel object, the channel object, a freshly built solver
-    if not np.array_equal(np.asarray(h.ch.big_H), chan0):
+    if not np.array_equal(np.asarray(ch0.big_H), chan0):
         return 'shared-channel:channel-modified', 'big_H of the channel object changed during the history'
     for a, b in zip(other.log, other_ref.log):
         if not all(mat_close(x, y, 1e-12) for x, y in zip(a, b)):
             return ('shared-channel:other-solver-affected',
                     'a second solver on the same channel object returns other values than on a channel of its own')
-    f = first_difference(observables(h.s), observables(twin.s))
-    if f is not None and not all(mat_close(x, y, 1e-12) for x, y in zip(leaves(getattr(h.s, f)), leaves(getattr(twin.s, f)))):
-        return 'differs-from-twin-object:final-state:%s' % f, 'attribute %s differs from the twin object at the end' % f
+    ca, cb = configuration(h.s), configuration(twin.s)
+    for f in ('_F', '_P', '_Ns', 'W'):
+        la, lb = leaves(ca[f]), leaves(cb[f])
+        if len(la) != len(lb) or not all(mat_close(x, y, 1e-12) for x, y in zip(la, lb)):
+            return 'differs-from-twin-object:final-state:%s' % f, 'attribute %s differs from the twin object at the end' % f
     if h.kind != 'base' and (h.kind not in ('maxsinr', 'mmse') or (case.get('noise') or 0) > 0):
         ns = [max(1, (h.Nr[0] // 2) - (case['chan_seed'] % 2))] * K if h.kind == 'closed' else [1] * K
         if h.kind != 'closed' or cf_ok(K, h.Nr, h.Nt, ns):
@@ -1630,6 +1907,12 @@ def case_classes(case):
         out.add('R6')
     if case['K'] == 1 or case.get('iters') == 0 or case.get('noise') == 0.0:
         out.add('R5')
+    if case.get('ctor') is not None:
+        out.add('R9' if case['ctor'] in ('npbool', 'int') else 'R8')
+    if case.get('iters_ty') is not None:
+        out.add('R9')
+    if case['K'] >= 257 or case.get('iters', 0) >= 257:
+        out.add('R14')
     if 'ops' not in case:       # solve / monotone case
         tags += [ns_tag(case.get('ns_arg')), parg_tag(case['P']) if isinstance(case.get('P'), (tuple, list)) else None]
         pws += power_values(case['P']) if isinstance(case.get('P'), (tuple, list)) else [case.get('P') or 1.0]
@@ -1647,7 +1930,19 @@ def case_classes(case):
                         out.add('R2')
                     elif any(x == 0 for x in power_values(op[1])):
                         out.add('R5')
+            elif op[0] == 'query':
+                out.add('R11')
+                if len(op) > 3 and op[3] not in (None, 'int'):
+                    out.add('R9')
+                if len(op) > 4 and op[4]:
+                    out.add('R8')
+                if op[1] in ('calcQ', 'rip', 'sinrdB', 'cap'):
+                    out.add('R8')
+            elif op[0] == 'fork':
+                out.add('R13')
             elif op[0] in ('rand', 'solve'):
+                if len(op) > (4 if op[0] == 'rand' else 5) and op[-1]:
+                    out.add('R8')
                 tags += [ns_tag(op[1]), parg_tag(op[2])]
                 pws += power_values(op[2])
                 if not parg_valid(op[2], case['K']):
@@ -1656,7 +1951,11 @@ def case_classes(case):
                 d = op[1]
                 if d.get('F') is None and d.get('fullF') is None:
                     out.add('R4')
-                if d.get('mty') not in (None, 'c'):
+                if d.get('form'):
+                    out.add('R8')
+                if d.get('mty') == 'hetero':
+                    out.add('R10')
+                elif d.get('mty') not in (None, 'c'):
                     out.add('R1' if d['mty'] in R1_MAT else 'R2')
                 if d.get('cty') in ('list', 'tuple'):
                     out.add('R1')
@@ -1667,7 +1966,13 @@ def case_classes(case):
                 d = op[1]
                 if d['which'] in ('both', 'none'):
                     out.add('R4')
-                if d.get('mty') not in (None, 'c'):
+                else:
+                    out.add('R8')       # the twin uses the equivalent other form
+                if d.get('form'):
+                    out.add('R8')
+                if d.get('mty') == 'hetero':
+                    out.add('R10')
+                elif d.get('mty') not in (None, 'c'):
                     out.add('R1' if d['mty'] in R1_MAT else 'R2')
                 if d.get('cty') in ('list', 'tuple'):
                     out.add('R1')
@@ -1675,7 +1980,7 @@ def case_classes(case):
                 out.add('R4')
     for t in tags:
         if t:
-            out.add(t[:2])
+            out.add(t.split(':')[0])
     if any(x > 0 and not (1e-3 <= x <= 1e3) for x in pws):
         out.add('R6')
     return out
